@@ -48,9 +48,17 @@ type opIn struct {
 	Remap [2]int
 	// UpdatedWith: Remap[0] = result for None, Remap[1] = delta for Some(v): Some(v+delta) or None if delta == 0
 	PredMod int // ComputeIf: pred(v) = v%PredMod == 0  (recompute when true)
+	// the call goes through the fp.Map facade over the same CopyOnWriteMap (fp.MakeMap(m).UpdatedWith(...)):
+	// the map is still the one used from several goroutines, whichever way it is addressed
+	Facade bool
 }
 
 func (o opIn) String() string {
+	if o.Facade {
+		p := o
+		p.Facade = false
+		return "fp.Map." + p.String()
+	}
 	switch o.Kind {
 	case opGet, opComputeIfAbsent:
 		if o.Kind == opGet {
@@ -180,6 +188,9 @@ func drawOp(rt *rapid.T, kinds []opKind, tid, idx int) opIn {
 	case opComputeIf:
 		o.PredMod = rapid.IntRange(2, 3).Draw(rt, "predmod")
 	}
+	if o.Kind <= opUpdatedWith {
+		o.Facade = rapid.IntRange(0, 3).Draw(rt, "viaFpMap") == 0
+	}
 	return o
 }
 
@@ -215,6 +226,30 @@ func runHistory(progs [][]opIn, pick func(n int, rs []*kit.Thread) int) (hist []
 							h.out.Panic = fmt.Sprint(p)
 						}
 					}()
+					if in.Facade {
+						fm := fp.MakeMap[int, int](m)
+						switch in.Kind {
+						case opGet:
+							h.out.Val = fm.Get(in.Key).OrElse(absent)
+						case opSize:
+							h.out.Size = fm.Size()
+						case opIter:
+							it := fm.Iterator()
+							var st = state{absent, absent, absent}
+							for it.HasNext() {
+								k, v := it.Next().Unapply()
+								st[k] = v
+							}
+							h.out.Snap = snapOf(st)
+						case opUpdated:
+							fm.Updated(in.Key, in.Val)
+						case opRemoved:
+							fm.Removed(in.Keys...)
+						case opUpdatedWith:
+							fm.UpdatedWith(in.Key, remapOf(in))
+						}
+						return
+					}
 					switch in.Kind {
 					case opGet:
 						h.out.Val = m.Get(in.Key).OrElse(absent)
@@ -348,7 +383,7 @@ func checkHistory(hist []*histOp, res kit.RunResult, trace string, fail func(sig
 	}
 }
 
-const ruleLin = "2-4 threads x 1-5 operations (Get, Size, Iterator, Updated, Removed, UpdatedWith, ComputeIf, ComputeIfAbsent; distinct written values) over keys {0,1,2} + a generated schedule over the yield points before every atomic load/store, before every lock acquisition and inside the compute callbacks; oracle: the recorded call/return history must be linearizable w.r.t. a sequential map (porcupine as oracle evaluator) and no operation may panic; non-trivial iff two operations of different threads overlap in time on a common key and at least one writes; distinct by programs+trace"
+const ruleLin = "2-4 threads x 1-5 operations (Get, Size, Iterator, Updated, Removed, UpdatedWith, ComputeIf, ComputeIfAbsent; the first six in a quarter of the cases through the fp.Map facade fp.MakeMap(m); distinct written values) over keys {0,1,2} + a generated schedule over the yield points before every atomic load/store, before every lock acquisition and inside the compute callbacks; oracle: the recorded call/return history must be linearizable w.r.t. a sequential map (porcupine as oracle evaluator) and no operation may panic; non-trivial iff two operations of different threads overlap in time on a common key and at least one writes; distinct by programs+trace"
 
 func linCheck(t *testing.T, name string, kinds []opKind, pct bool, minT, maxT, maxOps int) {
 	kit.Check(t, name, ruleLin, kit.Opt{}, func(rt *rapid.T, rec *kit.Rec) {
@@ -464,5 +499,7 @@ func TestExhaustive(t *testing.T) {
 	dfsConfig(t, "dfs/updatedwith-size", [][]opIn{{uw(0, 11), uw(0, 12)}, {uw(0, 21), {Kind: opSize}}}, max)
 	dfsConfig(t, "dfs/computeIfAbsent-2", [][]opIn{{cia(0, 11)}, {cia(0, 21)}}, max)
 	dfsConfig(t, "dfs/computeIfAbsent-remove", [][]opIn{{cia(0, 11)}, {up(0, 21), rm(0)}}, max)
+	uwF := func(k, v int) opIn { o := uw(k, v); o.Facade = true; return o }
+	dfsConfig(t, "dfs/updatedwith-via-fp.Map", [][]opIn{{uwF(0, 11), get(0)}, {uwF(0, 21), uw(0, 22)}}, max)
 	dfsConfig(t, "dfs/iterator-writes", [][]opIn{{{Kind: opIter}}, {up(0, 11), up(1, 12)}}, max)
 }
